@@ -6,7 +6,8 @@ HEADER = """From Coq Require Import Arith Bool String List. Import ListNotations
 From B Require Import Gen_C20.
 Open Scope string_scope.
 Definition mkarr nd dt k s0 s1 s2 := {| a_nd := nd; a_dt := dt; a_ndim := k; a_s0 := s0; a_s1 := s1; a_s2 := s2 |}.
-Definition mkd a b o h x y z := {| A := a; B := b; opt := o; herm := h; n1 := x; n2 := y; n3 := z |}.
+Definition mkd a b o h x y z := {| A := a; B := b; opt := o; opt2 := "None"; herm := h; n1 := x; n2 := y; n3 := z |}.
+Definition mkd2 a o o2 := {| A := a; B := a; opt := o; opt2 := o2; herm := false; n1 := 0; n2 := 0; n3 := 0 |}.
 Definition check_guard (c : (argd -> bool) * argd * bool) : bool := let '(g, d, r) := c in Bool.eqb (g d) r.
 """
 
@@ -134,13 +135,49 @@ def run(ctx):
     add('UtriangleQsparse', 'R 3x3, b 3x2', utri(3, 3, 2), D('(mkarr true DReal 2 3 3 0)', '(mkarr true DReal 2 3 2 0)'), 'accept')
     add('UtriangleQsparse', 'R 3x3, b 2x1', utri(3, 2), D('(mkarr true DReal 2 3 3 0)', '(mkarr true DReal 2 2 1 0)'), 'reject')
     add('UtriangleQsparse', 'R 1x1, b 1x1', utri(1, 1), D('(mkarr true DReal 2 1 1 0)', '(mkarr true DReal 2 1 1 0)'), 'accept')
+    # reflector builders: (a, v) must have the same shape (flat / column / row) and v must be real
+    tri = importlib.import_module('decomp.tridiagonalize')
+    def hv(shape_a, shape_v, vdt='real', fn='householder_vector'):
+        a = quaternion.as_quat_array(rs.standard_normal(tuple(shape_a) + (4,)))
+        v = np.zeros(shape_v); v.flat[0] = 1.0
+        if vdt == 'complex': v = v + 1j * np.ones(shape_v)
+        if vdt == 'quat': v = quaternion.as_quat_array(np.concatenate([v[..., None], np.ones(tuple(shape_v) + (3,))], axis=-1))
+        return lambda: getattr(tri, fn)(a, v)
+    def sd(shape, dt='DQuat'): return f'(mkarr true {dt} {len(shape)} {shape[0]} {shape[1] if len(shape) > 1 else 0} 0)'
+    for n in (3, 5):
+        lay = {'flat': (n,), 'column': (n, 1), 'row': (1, n)}
+        for la, sa in lay.items():
+            for lv, sv in lay.items():
+                for fn in ('householder_vector', 'householder_matrix'):
+                    # householder_matrix on 2-D column / row vectors: the documented domain does not say; the routine has branches for them but
+                    # raises TypeError inside its outer-product loop (observation recorded in DESIGN 12.4, not claimed either way)
+                    exp = 'reject' if la != lv else ('either' if (fn == 'householder_matrix' and la != 'flat') else 'accept')
+                    add(fn, f'a {la} {n}, v {lv} {n}', hv(sa, sv, fn=fn), D(sd(sa), sd(sv, 'DReal')) if exp != 'either' else None, exp)
+        add('householder_vector', f'a flat {n}, v flat {n + 1}', hv((n,), (n + 1,)), D(sd((n,)), sd((n + 1,), 'DReal')), 'reject')
+        add('householder_matrix', f'a flat {n}, v flat {n + 1}', hv((n,), (n + 1,), fn='householder_matrix'), D(sd((n,)), sd((n + 1,), 'DReal')), 'reject')
+        add('householder_vector', f'a flat {n}, v complex flat {n}', hv((n,), (n,), 'complex'), D(sd((n,)), sd((n,), 'DComplex')), 'reject')
+        add('householder_vector', f'a flat {n}, v quaternion flat {n}', hv((n,), (n,), 'quat'), D(sd((n,)), sd((n,), 'DQuat')), 'reject')      # np.imag of a quaternion array is identically zero: the dtype is what the guard has to test
+    # the two enumerated options of the complex-adjoint power iteration, on Hermitian and on generic input
+    for mname, Mx in (('hermitian', Qm(3, 3, herm=True)), ('generic', Qm(3, 3))):
+        for ef in ('complex', 'quaternion', 'foo', '', 'Complex'):
+            for ax in ('x', 'y', 'z', ''):
+                ok = ef in ('complex', 'quaternion') and ax == 'x'
+                def call(Mx=Mx, ef=ef, ax=ax):
+                    with contextlib.redirect_stdout(io.StringIO()): return utils.power_iteration_nonhermitian(Mx, max_iterations=3, eigenvalue_format=ef, subfield_axis=ax)
+                add('power_iteration_nonhermitian', f'{mname}, eigenvalue_format={ef!r}, subfield_axis={ax!r}', call, f'(mkd2 (mkarr true DQuat 2 3 3 0) "{ef}" "{ax}")', 'accept' if ok else 'reject')
     def gm(A, b, **kw): return lambda: solver.QGMRESSolver(tol=1e-8, **kw).solve(A, b)
-    add('qgmres_solve', 'square 3x3', gm(Qm(3, 3), Qm(3, 1)), None, 'accept')
-    add('qgmres_solve', '1x1', gm(Qm(1, 1) + 5, Qm(1, 1)), None, 'accept')
-    add('qgmres_solve', 'tall A', gm(Qm(4, 2), Qm(4, 1)), None, 'reject')
-    add('qgmres_solve', 'wide A', gm(Qm(2, 4), Qm(2, 1)), None, 'reject')
-    add('qgmres_solve', 'tall A with left_lu', gm(Qm(4, 2), Qm(4, 1), preconditioner='left_lu'), None, 'reject')
-    add('qgmres_solve', 'mismatched b', gm(Qm(3, 3), Qm(2, 1)), None, 'reject')
+    qd = lambda m, n: f'(mkarr true DQuat 2 {m} {n} 0)'
+    for pname, kw in (('', {}), (' with left_lu', {'preconditioner': 'left_lu'})):
+        add('qgmres_solve', 'square 3x3' + pname, gm(Qm(3, 3), Qm(3, 1), **kw), D(qd(3, 3), qd(3, 1)), 'accept')
+        add('qgmres_solve', '1x1' + pname, gm(Qm(1, 1) + 5, Qm(1, 1), **kw), D(qd(1, 1), qd(1, 1)), 'accept')
+        add('qgmres_solve', 'tall A' + pname, gm(Qm(4, 2), Qm(4, 1), **kw), D(qd(4, 2), qd(4, 1)), 'reject')
+        add('qgmres_solve', 'wide A' + pname, gm(Qm(2, 4), Qm(2, 1), **kw), D(qd(2, 4), qd(2, 1)), 'reject')
+        add('qgmres_solve', 'wide A, b with as many rows as A has columns' + pname, gm(Qm(2, 3), Qm(3, 1), **kw), D(qd(2, 3), qd(3, 1)), 'reject')
+        add('qgmres_solve', 'mismatched b (short)' + pname, gm(Qm(3, 3), Qm(2, 1), **kw), D(qd(3, 3), qd(2, 1)), 'reject')
+        add('qgmres_solve', 'mismatched b (long)' + pname, gm(Qm(3, 3), Qm(4, 1), **kw), D(qd(3, 3), qd(4, 1)), 'reject')
+        add('qgmres_solve', 'mismatched zero b (short)' + pname, gm(Qm(3, 3), Qm(2, 1) * 0, **kw), D(qd(3, 3), qd(2, 1)), 'reject')
+        add('qgmres_solve', 'mismatched zero b (long)' + pname, gm(Qm(3, 3), Qm(4, 1) * 0, **kw), D(qd(3, 3), qd(4, 1)), 'reject')
+        add('qgmres_solve', 'zero b' + pname, gm(Qm(3, 3), Qm(3, 1) * 0, **kw), D(qd(3, 3), qd(3, 1)), 'accept')
     X = Qm(4, 3)
     add('deep_linear_compute', 'layers[0] = input dim', lambda: contextlib.redirect_stdout(io.StringIO()).__enter__() and None or solver.DeepLinearNewtonSchulz(max_iter=1).compute(X, [3, 4]), D('(mkarr true DQuat 2 4 3 0)', n1=3), 'accept')
     add('deep_linear_compute', 'layers[0] != input dim', lambda: solver.DeepLinearNewtonSchulz(max_iter=1).compute(X, [4, 4]), D('(mkarr true DQuat 2 4 3 0)', n1=4), 'reject')
